@@ -499,11 +499,8 @@ def build_python(spec, pool=None):
 
     def circ(s):
         if s.get('circuits'):
-            if s.get('twin_sub'):
-                # ONE sub-circuit template object used under every key
-                one = circ(next(iter(s['circuits'].values())))
-                return CircuitTemplate(name=s['name'], circuits={k: one for k in s['circuits']},
-                                       edges=[edge(e) for e in s.get('edges', [])])
+            # (twin sub-circuits: one CircuitTemplate object per instance, equal in name and content - what a Python loop
+            # produces; in a YAML file they are ONE template referenced twice, and from_yaml hands out one object)
             return CircuitTemplate(name=s['name'], circuits={k: circ(v) for k, v in s['circuits'].items()},
                                    edges=[edge(e) for e in s.get('edges', [])])
         return CircuitTemplate(name=s['name'], nodes={n: nts[k] for n, k in s['nodes'].items()},
